@@ -196,6 +196,7 @@ class Result:
         self.errs = []
         self.done = 0
         self.shards = 0
+        self.traces = []
 
     def merge_file(self, path):
         self.shards += 1
@@ -226,6 +227,8 @@ class Result:
                 elif ln.startswith("HIST "):
                     _, k, v = ln.split(" ", 2)
                     self.hist[k] = self.hist.get(k, 0) + int(v)
+                elif ln.startswith("TRACE "):
+                    self.traces.append(ln[6:])
                 elif ln.startswith("NOTE "):
                     if len(self.notes) < 40:
                         self.notes.append(ln[5:])
@@ -279,6 +282,60 @@ def run_shards(exe, args, nshards, timeout, env=None, res=None, tag="h"):
                 res.errs.append("shard %d of %s exited with %d: %s" % (i, os.path.basename(exe), rc, log))
     shutil.rmtree(rd, ignore_errors=True)
     return res
+
+
+# ---------------------------------------------------------------------------------------------
+# conformance: replay explored histories on the stock binary (repository Makefile, guard off)
+# ---------------------------------------------------------------------------------------------
+
+def _replay_one(args):
+    stock, tr, d = args
+    t = json.loads(tr)
+    os.makedirs(d, exist_ok=True)
+    for name, hx in t["files"].items():
+        with open(os.path.join(d, name), "wb") as f:
+            f.write(bytes.fromhex(hx))
+    env = {"PATH": os.environ.get("PATH", "/usr/bin:/bin"), "LC_ALL": "C", "TERM": "dumb", "TAGPATH": "/nonexistent/tags",
+           "HOME": d}
+    env.update(t["env"])
+    try:
+        p = subprocess.run([stock] + t["argv"], input=bytes.fromhex(t["input"]), stdout=subprocess.PIPE,
+                           stderr=subprocess.STDOUT, cwd=d, env=env, timeout=20)
+    except subprocess.TimeoutExpired:
+        return "stock binary did not finish within 20 s: argv=%s input=%r" % (t["argv"], bytes.fromhex(t["input"]))
+    for name, hx in t["expect_files"].items():
+        want = bytes.fromhex(hx)
+        path = os.path.join(d, name)
+        got = open(path, "rb").read() if os.path.exists(path) else None
+        if got != want:
+            return "file %s after argv=%s input=%r: stock binary %r, harness %r" % (name, t["argv"], bytes.fromhex(t["input"]), got, want)
+    for name in os.listdir(d):
+        if name not in t["expect_files"] and os.path.isfile(os.path.join(d, name)):
+            return "stock binary left a file %s that the harness run did not (argv=%s input=%r)" % (name, t["argv"], bytes.fromhex(t["input"]))
+    if "expect_stdout" in t:
+        want = bytes.fromhex(t["expect_stdout"])
+        if p.stdout != want:
+            return "ex output after argv=%s input=%r: stock binary %r, harness %r" % (t["argv"], bytes.fromhex(t["input"]), p.stdout, want)
+    shutil.rmtree(d, ignore_errors=True)
+    return None
+
+
+def conformance(res, limit=400):
+    """Replay the emitted traces on the stock binary; a disagreement is a harness error, not a violation."""
+    from concurrent.futures import ThreadPoolExecutor
+    traces = res.traces[:limit]
+    if not traces:
+        return
+    stock = build_stock()
+    base = os.path.join(BUILD, "run.%d" % os.getpid())
+    jobs = [(stock, tr, os.path.join(base, "t%d" % i)) for i, tr in enumerate(traces)]
+    with ThreadPoolExecutor(max_workers=NCPU) as ex:
+        outs = list(ex.map(_replay_one, jobs))
+    bad = [o for o in outs if o]
+    res.stats["traces_validated"] = res.stats.get("traces_validated", 0) + len(outs) - len(bad)
+    for o in bad[:5]:
+        res.errs.append("conformance: the harness does not represent the stock binary: " + o[:1500])
+    shutil.rmtree(base, ignore_errors=True)
 
 
 # ---------------------------------------------------------------------------------------------
